@@ -60,6 +60,21 @@ type entry struct {
 
 type bucketData struct {
 	entries []entry
+	pos     map[string]int // key -> index in entries
+}
+
+func (bd *bucketData) find(key []byte) int {
+	if i, ok := bd.pos[string(key)]; ok {
+		return i
+	}
+	return -1
+}
+
+func (bd *bucketData) reindex() {
+	bd.pos = map[string]int{}
+	for i := range bd.entries {
+		bd.pos[string(bd.entries[i].key)] = i
+	}
 }
 
 // store is one committed state of a database file.
@@ -85,6 +100,7 @@ func (s *store) clone() *store {
 		for _, e := range s.buckets[i].entries {
 			bd.entries = append(bd.entries, entry{key: e.key, val: e.val})
 		}
+		bd.reindex()
 		n.buckets = append(n.buckets, bd)
 	}
 	return n
@@ -341,7 +357,7 @@ func (tx *Tx) CreateBucket(name []byte) (*Bucket, error) {
 	if tx.root.find(string(name)) != nil {
 		return nil, ErrBucketExists
 	}
-	bd := &bucketData{}
+	bd := &bucketData{pos: map[string]int{}}
 	tx.root.names = append(tx.root.names, string(name))
 	tx.root.buckets = append(tx.root.buckets, bd)
 	return &Bucket{tx: tx, data: bd, name: string(name)}, nil
@@ -384,10 +400,8 @@ func (b *Bucket) Tx() *Tx        { return b.tx }
 func (b *Bucket) Writable() bool { return b.tx.writable }
 
 func (b *Bucket) Get(key []byte) []byte {
-	for i := range b.data.entries {
-		if string(b.data.entries[i].key) == string(key) {
-			return b.data.entries[i].val
-		}
+	if i := b.data.find(key); i >= 0 {
+		return b.data.entries[i].val
 	}
 	return nil
 }
@@ -402,15 +416,14 @@ func (b *Bucket) Put(key []byte, value []byte) error {
 	if len(key) == 0 {
 		return ErrKeyRequired
 	}
-	for i := range b.data.entries {
-		if string(b.data.entries[i].key) == string(key) {
-			b.data.entries[i].val = value
-			return nil
-		}
+	if i := b.data.find(key); i >= 0 {
+		b.data.entries[i].val = value
+		return nil
 	}
 	k := make([]byte, len(key))
 	copy(k, key)
 	b.data.entries = append(b.data.entries, entry{key: k, val: value})
+	b.data.pos[string(k)] = len(b.data.entries) - 1
 	return nil
 }
 
@@ -421,11 +434,9 @@ func (b *Bucket) Delete(key []byte) error {
 	if !b.tx.writable {
 		return ErrTxNotWritable
 	}
-	for i := range b.data.entries {
-		if string(b.data.entries[i].key) == string(key) {
-			b.data.entries = append(b.data.entries[:i:i], b.data.entries[i+1:]...)
-			return nil
-		}
+	if i := b.data.find(key); i >= 0 {
+		b.data.entries = append(b.data.entries[:i:i], b.data.entries[i+1:]...)
+		b.data.reindex()
 	}
 	return nil
 }
@@ -454,16 +465,30 @@ func (c *Cursor) Bucket() *Bucket { return c.b }
 func (c *Cursor) sort() {
 	es := make([]entry, len(c.b.data.entries))
 	copy(es, c.b.data.entries)
-	for i := 1; i < len(es); i++ {
-		for j := i; j > 0; j-- {
-			if string(es[j].key) < string(es[j-1].key) {
-				es[j], es[j-1] = es[j-1], es[j]
-			} else {
-				break
-			}
+	c.sorted = mergeSort(es)
+}
+
+func mergeSort(a []entry) []entry {
+	if len(a) < 2 {
+		return a
+	}
+	mid := len(a) / 2
+	l := mergeSort(append([]entry(nil), a[:mid]...))
+	r := mergeSort(append([]entry(nil), a[mid:]...))
+	out := make([]entry, 0, len(a))
+	i, j := 0, 0
+	for i < len(l) && j < len(r) {
+		if string(r[j].key) < string(l[i].key) {
+			out = append(out, r[j])
+			j++
+		} else {
+			out = append(out, l[i])
+			i++
 		}
 	}
-	c.sorted = es
+	out = append(out, l[i:]...)
+	out = append(out, r[j:]...)
+	return out
 }
 
 func (c *Cursor) cur() ([]byte, []byte) {
